@@ -173,28 +173,63 @@ def _nofault(sim):
 def execute(plan):
     from simworld import runner
 
+    from simworld import oracles
+
     rows_in = plan["rows"]
     out = {"violations": [], "nontrivial": None, "summary": [], "runs": 0}
-    twin = runner.run_once({"rows": rows_in, "config": plan["config"], "sim": _nofault(plan["sim"])})
-    out["runs"] += 1
-    out["summary"].append(common.run_summary(twin))
     thr = plan["config"].get("threshold", 0)
+    clean_spec = {"rows": rows_in, "config": plan["config"], "sim": _nofault(plan["sim"])}
+    # Half of the faulty plans run the faults FIRST, on whatever state the process is in (a cold memo or
+    # cache in the code under test is then filled under faults); the fault-free run that follows is both
+    # the twin and the "faults have stopped" run. The other half runs twin, faulty, twin again.
+    faulty_first = plan["kind"] == "faulty" and plan.get("order", "twin_first" if H(rows_in, plan["sim"].get("sched_seed")) % 2 else "faulty_first") == "faulty_first"
+    twin = None
+    if not faulty_first:
+        twin = runner.run_once(clean_spec)
+        out["runs"] += 1
+        out["summary"].append(common.run_summary(twin))
     if plan["kind"] == "faulty":
         res = runner.run_once({"rows": rows_in, "config": plan["config"], "sim": plan["sim"], "tap": True})
         out["runs"] += 1
         _reach_probes(res)
         out["summary"].append(common.run_summary(res))
-        vs, _ = judge(rows_in, res, twin, thr, bs=plan["config"].get("batch_size"))
-        if res["fired"] and twin["rows"] is not None:
-            # faults have stopped: the same run again, in the same process, must be the fault-free run again
-            after = runner.run_once({"rows": rows_in, "config": plan["config"], "sim": _nofault(plan["sim"])})
+        after = None
+        if faulty_first or res["fired"]:
+            after = runner.run_once(clean_spec)
             out["runs"] += 1
             out["summary"].append(common.run_summary(after))
+        pristine = None
+        if twin is None:
+            twin = after
+            if res["fired"]:
+                # the same fault-free run once more, after forgetting all module-level state of the code
+                # under test: what the faulty run left behind in the process must not matter
+                runner.fresh_state()
+                pristine = runner.run_once(clean_spec)
+                out["runs"] += 1
+                out["summary"].append(common.run_summary(pristine))
+        vs, _ = judge(rows_in, res, twin, thr, bs=plan["config"].get("batch_size"))
+        if after is not None and after is not twin and twin["rows"] is not None:
+            # faults have stopped: the same run again, in the same process, must be the fault-free run again
             if after["rows"] != twin["rows"] or after["stats"] != twin["stats"]:
                 k = next((i for i, (a, b) in enumerate(zip(after["rows"] or [], twin["rows"])) if a != b), 0)
-                from simworld import oracles
                 vs.append(oracles.V("C11", "fault_outlives_run", "after", "fault-free run after the faulty one differs from the fault-free run before it at row %d (%s): %r vs %r" % (
                     k, rows_in[k] if k < len(rows_in) else None, (after["rows"] or [None] * (k + 1))[k] if after["rows"] is not None and k < len(after["rows"]) else after["exc"], twin["rows"][k] if k < len(twin["rows"]) else None)))
+        if pristine is not None and (pristine["rows"] != after["rows"] or pristine["stats"] != after["stats"]):
+            k = next((i for i, (a, b) in enumerate(zip(after["rows"] or [], pristine["rows"] or [])) if a != b), 0)
+            vs.append(oracles.V("C11", "fault_outlives_run", "pristine", "faults first, then the fault-free run: row %d (%s) is %r, but %r once the process state left behind by the faulty run is discarded" % (
+                k, rows_in[k] if k < len(rows_in) else None, (after["rows"] or [None] * (k + 1))[k] if after["rows"] else after["exc"], (pristine["rows"] or [None] * (k + 1))[k] if pristine["rows"] else pristine["exc"])))
+        last_clean = after if after is not None else twin
+        if thr == 0 and last_clean["rows"] is not None and len(last_clean["rows"]) == len(rows_in):
+            # fault-free result per reaction, compared across all plans and worker processes by the driver
+            out["clean_rows"] = [[r, row] for r, row in zip(rows_in, last_clean["rows"])]
+            exp = plan.get("expect_clean") or {}
+            for r, row in out["clean_rows"]:
+                if r in exp and exp[r] != row:
+                    diff = oracles.rows_equal(row, exp[r])
+                    vs.append(oracles.V("C11", "fault_free_result_depends_on_process_history", ",".join(diff),
+                                        "after the faults stopped, the fault-free result of %s in this process is %r; other executions of the same fault-free run give %r" % (
+                                            r, {k: row[k] for k in diff}, {k: exp[r][k] for k in diff})))
         out["violations"] = vs
         out["fired_list"] = res["fired_list"]
         inside = sum(v for k, v in res["fired"].items() if k.split(".")[0] in ("mcs_job", "frag_job", "fmcs", "fmces"))
